@@ -384,6 +384,7 @@ pub fn mtu(tier: Tier, link_mtu: usize, path_limit: Option<usize>, emsgsize: Opt
         Act::Deliver(Pkt::DataLen { off: 0, len: 2000 }),
         state(AckSpec::Cur, def, SackSpec::AllSent),
         state(AckSpec::Cur, def, SackSpec::Raw(vec![0b10, 0, 0, 0, 0, 0, 0, 0])),
+        state(AckSpec::Cur, def, SackSpec::Raw(vec![0b100, 0, 0, 0, 0, 0, 0, 0])),
     ];
     if path_limit.is_none() {
         alphabet[1] = state(AckSpec::All, def, SackSpec::None);
